@@ -1,3 +1,8 @@
+#!/usr/bin/env python3
+"""Round 3 only: turns the outputs of tools/seedtest_wt.sh (kept under /var/tmp while the round was run: det3_<ID>.txt,
+r3_<ID>.txt for the runs repeated alone) plus the hand-written notes in tools/seed_detect3_notes.json into entries of
+tools/seed_detect.json (keys <ID>/g, <ID>/h). Kept as the record of how those entries were produced; the inputs under
+/var/tmp are scratch and are not needed by any registered check."""
 import json,re,os,glob
 detp='/verif/tools/seed_detect.json'
 det=json.load(open(detp))
@@ -13,8 +18,8 @@ why={
  'C16/g':"basm.assembler2NewBondMachine (requirement inference over strings and maps) is outside the verifiable subset",
 }
 notes={}
-if os.path.exists('/var/tmp/det3_notes.json'):
-    notes=json.load(open('/var/tmp/det3_notes.json'))
+if os.path.exists('/verif/tools/seed_detect3_notes.json'):
+    notes=json.load(open('/verif/tools/seed_detect3_notes.json'))
 for f in sorted(glob.glob('/var/tmp/det3_C*.txt'))+sorted(glob.glob('/var/tmp/r3_C*.txt')):
     cur=None
     for l in open(f):
